@@ -519,6 +519,95 @@ def argkind_case(ctx, agg, kind, label, els, coords, charges, weights, fn, gkind
     ctx.outcome(("ak", fn, zlib.crc32(np.round(np.asarray(got, dtype=np.float64), 9).tobytes()) % 1024))
 
 
+# =================================================================================================
+# caller-supplied nearest-atom tables with -1 entries
+# =================================================================================================
+TABLE_CUTOFFS = ("all-minus-one", "tiny", "below-largest-radius", "at-largest-radius", "above-largest-radius")
+
+
+def table_case(ctx, agg, label, els, coords, charges, weights, fn, cutoff_kind, weighted, seed):
+    """aeif / atomic_indicator_field with the caller's own nearest_atom_idx table computed with the given cut-off.
+    Definition per conformer and grid point: value of the table's atom when the table entry is >= 0 and the point lies
+    inside some sphere, otherwise 0 (-1 means 'no atom', never 'the last atom')."""
+    obj, _ = build_object("ensemble", els, coords, charges, weights)
+    grid = history_grid(seed)
+    st = read_state(obj, True, grid)
+    d = dist_all(st["coords"], st["grid"])  # nc, na, ng
+    nc, na, ng = d.shape
+    if fn == "aeif":
+        vals, radii = st["charges"], st["radii"]
+    else:
+        vals, radii = custom_args(st)
+    rmax = float(np.max(radii))
+    cut = {"all-minus-one": -1.0, "tiny": 0.3, "below-largest-radius": 1.2 if rmax > 1.2 else 0.75 * rmax, "at-largest-radius": rmax, "above-largest-radius": rmax + 0.75}[cutoff_kind]
+    dmin = d.min(axis=1)
+    table = np.where(dmin <= cut, d.argmin(axis=1), -1).astype(np.int64)
+    op = fn
+    attrs = {"table": cutoff_kind}
+    agg.tick(op, **attrs)
+    ctx.count(states=1, evaluations=1, traces=1, transitions=1)
+    M = max(1.0, float(np.abs(st["coords"]).max()), float(np.abs(grid).max()))
+    band = BAND * M
+    r = np.asarray(radii, dtype=np.float64)[None, :, None]
+    comparable = ~(np.abs(d - r) <= band).any(axis=(0, 1))
+    inside = (d <= r).any(axis=1)  # nc, ng
+    per = np.zeros((nc, ng))
+    v = np.asarray(vals, dtype=np.float64)
+    for c in range(nc):
+        sel = inside[c] & (table[c] >= 0)
+        per[c, sel] = v[c, table[c, sel]]
+    w = st["weights"] if weighted else np.ones(nc)
+    exp = (per * w[:, None]).sum(axis=0) / w.sum()
+    snap = table.copy()
+    sym = det = None
+    try:
+        if fn == "aeif":
+            got = gb.aeif(obj, grid, nearest_atom_idx=table, weighted=weighted)
+        else:
+            got = gb.atomic_indicator_field(obj, grid, vals, radii, nearest_atom_idx=table, weighted=weighted)
+    except Exception as e:
+        sym, det = f"raised-{type(e).__name__}", f"raised {type(e).__name__}: {e}"
+    else:
+        if not np.array_equal(table, snap):
+            sym, det = "caller-input-mutated[nearest_atom_idx]", "the caller's table was changed"
+        elif not isinstance(got, np.ndarray) or got.shape != exp.shape or got.dtype.kind != "f":
+            sym, det = "malformed-result", f"returned {type(got).__name__} {getattr(got, 'shape', None)}"
+        else:
+            bad = comparable & ~(np.abs(got.astype(np.float64) - exp) <= 1e-9 * max(1.0, float(np.abs(exp).max(initial=0.0))))
+            if bad.any():
+                g = int(np.argmax(bad))
+                minus = [c for c in range(nc) if table[c, g] < 0 and inside[c, g]]
+                sym = "minus-one-table-entry-taken-as-an-atom" if minus else "wrong-value-with-caller-table"
+                det = f"grid point {g} {grid[g].tolist()}: table entries {table[:, g].tolist()}, inside a sphere per conformer {inside[:, g].tolist()}: returned {got[g]!r}, definition gives {exp[g]!r}"
+    if sym:
+        case = {"kind": "table", "op": op, "symptom": sym, "label": label, "els": list(els), "coords": coords.tolist(), "charges": np.asarray(charges).tolist(), "weights": np.asarray(weights).tolist(), "fn": fn, "cutoff_kind": cutoff_kind, "weighted": weighted, "seed": seed}
+        tbl = f"d = np.sqrt(((obj.coords[:, :, None, :] - grid[None, None, :, :].astype(float)) ** 2).sum(-1)); table = np.where(d.min(axis=1) <= {cut!r}, d.argmin(axis=1), -1)\n"
+        if fn == "aeif":
+            line = f"print(gb.aeif(obj, grid, nearest_atom_idx=table, weighted={weighted}))"
+        else:
+            line = f"print(gb.atomic_indicator_field(obj, grid, np.array({np.asarray(vals).tolist()!r}), np.array({np.asarray(radii).tolist()!r}), nearest_atom_idx=table, weighted={weighted}))"
+        agg.fail(op, sym, attrs, f"{fn}({label} {''.join(els)}, caller's nearest_atom_idx computed with cut-off {cut:g} [{cutoff_kind}; largest radius {rmax:g}], weighted={weighted}): {det}", case, repro_head("ensemble", els, coords, charges, weights, grid) + tbl + line)
+        return
+    if (table < 0).any() and (table >= 0).any():
+        ctx.nontrivial(("tb", fn, cutoff_kind, label, weighted))
+    ctx.outcome(("tb", fn, zlib.crc32(np.round(exp, 9).tobytes()) % 1024))
+    ctx.add_note(f"{fn}_caller_table_points_with_minus_one_inside_a_sphere", int(((table < 0) & inside).sum()))
+
+
+def table_job(ctx, agg, arg):
+    seed, thorough = arg["seed"], arg["thorough"]
+    for label, els, coords, charges, weights in history_bases(seed, thorough):
+        for fn in ("aeif", "atomic_indicator_field"):
+            for ck in TABLE_CUTOFFS:
+                for weighted in (False, True):
+                    table_case(ctx, agg, label, els, coords, charges, weights, fn, ck, weighted, seed)
+
+
+def replay_table(ctx, agg, case):
+    coords = np.array(case["coords"], dtype=np.float64)
+    table_case(ctx, agg, case["label"], tuple(case["els"]), coords, np.array(case["charges"]), np.array(case["weights"]), case["fn"], case["cutoff_kind"], case["weighted"], case["seed"])
+
+
 def argkind_job(ctx, agg, arg):
     seed, thorough = arg["seed"], arg["thorough"]
     for label, els, coords, charges, weights in history_bases(seed, thorough):
